@@ -154,6 +154,7 @@ func runC04(c *Ctx) {
 	c.rule("N6", "in the removal call graph, operations that act through symbolic links (chown, chmod, chtimes) are applied only to paths found not to be links", 1)
 	c.rule("N3", "removal primitives in the removal call graph are afero.Fs.Remove and the privileged fallback only (no RemoveAll)", 2)
 
+	c.rule("N9", "a function that holds the removal primitive does not take Exists()==false for 'absent': on that side the path is examined with Lstat/Stat, the error is classified (not-exist or not) and reported when it is not 'absent'", 1)
 	c.rule("N8", "in the removal call graph, an error assigned to a variable is read before the variable is overwritten or the function returns: a failed step (cleaning, listing, removing) cannot be covered by the result of the next one", 40)
 
 	c.patternLoopsComplete("N4")
@@ -367,13 +368,29 @@ func runC04(c *Ctx) {
 				if v != ssa.Value(cl) {
 					continue
 				}
-				// the return reached straight from the "does not exist" edge
-				nb := b.Succs[1-ts]
-				for steps := 0; steps < 20 && len(nb.Succs) == 1; steps++ {
-					nb = nb.Succs[0]
+				// the returns that can only be reached over the "does not exist" edge and are not plain failures
+				var r *ssa.Return
+				var region []*ssa.BasicBlock
+				for _, rb := range f.Blocks {
+					if !edgeDominates(b, 1-ts, rb) {
+						continue
+					}
+					region = append(region, rb)
+					if x, ok := rb.Instrs[len(rb.Instrs)-1].(*ssa.Return); ok && !isErrorExit(f, x) && r == nil {
+						r = x
+					}
 				}
-				r, ok := nb.Instrs[len(nb.Instrs)-1].(*ssa.Return)
-				if !ok || isErrorExit(f, r) {
+				if r == nil {
+					// the return reached straight from the "does not exist" edge (it may be shared with other tests: `a || !Exists(p)`)
+					nb := b.Succs[1-ts]
+					for steps := 0; steps < 20 && len(nb.Succs) == 1; steps++ {
+						nb = nb.Succs[0]
+					}
+					if x, ok := nb.Instrs[len(nb.Instrs)-1].(*ssa.Return); ok && !isErrorExit(f, x) {
+						r = x
+					}
+				}
+				if r == nil {
 					continue
 				}
 				key := fname(f) + "/gone-by-stat"
@@ -382,6 +399,58 @@ func runC04(c *Ctx) {
 				} else {
 					c.violate("N2", key, c.ipos(r), "success is reported because Exists() (a link-following Stat) says the path is not there: a dangling symbolic link 'does not exist' for Stat, is left in place, and the call still reports that the tree is gone")
 				}
+				// N9: the functions that remove for good (they hold the removal primitive itself) do not take Exists()==false
+				// for "absent": Exists() is also false for what cannot be examined
+				holdsPrimitive := false
+				allInstrs(f, func(i2 ssa.Instruction) {
+					if c2, ok := i2.(*ssa.Call); ok && c2.Call.IsInvoke() && c2.Call.Method.Name() == "Remove" {
+						if _, ok := fieldLoad(c2.Call.Value, "VFS", "vfs"); ok {
+							holdsPrimitive = true
+						}
+					}
+				})
+				if !holdsPrimitive {
+					continue
+				}
+				var probeErr ssa.Value
+				classified, reported := false, false
+				for _, rb := range region {
+					for _, i2 := range rb.Instrs {
+						c2, ok := i2.(*ssa.Call)
+						if !ok {
+							continue
+						}
+						if n2, a2, ok := fsMethodCall(c2); ok && (n2 == "Lstat" || n2 == "Stat") && len(a2) > 0 && samePath(a2[0], args[0]) {
+							if es := errResultsOf(c2); len(es) > 0 {
+								probeErr = es[0]
+							}
+						}
+					}
+				}
+				if probeErr != nil {
+					for _, rb := range region {
+						for _, i2 := range rb.Instrs {
+							switch x := i2.(type) {
+							case *ssa.Call:
+								n2 := calleeFull(&x.Call)
+								if len(x.Call.Args) > 0 && x.Call.Args[0] == probeErr && (strings.HasSuffix(n2, "filesystem.IsPathNotExist") || strings.HasSuffix(n2, "commonerrors.Any") || n2 == "os.IsNotExist" || n2 == "errors.Is") {
+									classified = true
+								}
+							case *ssa.Return:
+								k := len(x.Results) - 1
+								if k >= 0 {
+									for _, l := range sources(x.Results[k], deriveOpts{}) {
+										if l == probeErr || c11DependsOn(l, []ssa.Value{probeErr}, map[ssa.Value]bool{}, 0) {
+											reported = true
+										}
+									}
+								}
+							}
+						}
+					}
+				}
+				c.check(probeErr != nil && classified && reported, "N9", fname(f)+"/absent-by-error-kind", c.ipos(cl), "where Exists() answers false the path is examined (Lstat), its error classified, and reported unless it says 'absent'",
+					"the removal returns without an error as soon as Exists() answers false, which it also does for a path that cannot be examined (longer than PATH_MAX, unreadable parent): nothing is removed, the caller — a recursive removal one level up — finds the directory not empty and stops there, and Rm() reports success with the tree in place")
 			}
 		})
 	}
